@@ -829,7 +829,7 @@ class CompileFailure:
 _LAST: Dict[str, object] = {}
 
 
-def extract(tier: str, seed: int, configs: Optional[List[str]] = None) -> List[dict]:
+def extract(tier: str, seed: int, configs: Optional[List[str]] = None, need=None) -> List[dict]:
     """Generate, compile with the driver and load the facts of the witness corpus.
 
     Compile failures of individual enum modules are recorded (see `failures()`), the modules switched off
@@ -895,8 +895,7 @@ def extract(tier: str, seed: int, configs: Optional[List[str]] = None) -> List[d
                 rc, stems2, _d = common.run_cargo_with_driver(root, target, facts, ["--workspace"], [root + "/"], keep_going=True)
                 if not os.path.exists(p):
                     raise common.ToolError("fact file missing for corpus crate " + s)
-            with open(p) as f:
-                u = json.load(f)
+            u = common.load_unit(facts, s, need)
             u["_stem"] = s
             u["_origin"] = "corpus"
             u["_config"] = u["crate"].split("_")[1] if u["crate"].startswith("c_") else "?"
@@ -907,6 +906,8 @@ def extract(tier: str, seed: int, configs: Optional[List[str]] = None) -> List[d
         _LAST["by_mod"] = by_mod
         _LAST["root"] = root
         _LAST["crates"] = crates
+        common.touch_used(root)
+        common.gc_work([root])
         expected = len(set(crates))
         if len(units) < expected:
             raise common.ToolError("only %d of %d corpus crates produced facts" % (len(units), expected))
